@@ -176,6 +176,7 @@ func init() {
 			return []HarnessSpec{
 				{Pkg: "internal/generator", Fn: "VerifC07VarNames", Reach: []string{"generated"}, Bounds: map[string]any{"variable_counter": "0..40 (symbolic)", "quantifier": "nested | atLeast"}},
 				{Pkg: "internal/parser/profile", Fn: "VerifC07Genvar", CrossCheck: true, Reach: []string{"named"}, Bounds: map[string]any{"counter": "7 boundary bases (0, 90, 9990, 999990, 2^31-8, 2^53-8, 2^62-8) + symbolic offset 0..15"}},
+				{Pkg: "internal/validator", Fn: "VerifC07EmptyOperands", Reach: []string{"accepted"}, Bounds: map[string]any{"bodies": "or: [] | not: {and: []} | and: [] | not: {or: []}", "levels": 3}},
 				{Pkg: "internal/generator", Fn: "VerifC07GenvarNames", Reach: []string{"generated"}, Bounds: map[string]any{"counter": "as VerifC07Genvar"}},
 				{Pkg: "internal/generator", Fn: "VerifC07PathBindings", Reach: []string{"traversed"}, Bounds: map[string]any{"path_shapes": 21, "modes": "property set | node set (nested) | array (uniqueValues)"}},
 			}
@@ -310,7 +311,9 @@ func init() {
 		Rule: "gosym: one state = one feasible path of BuildReport over a result tree of nondeterministic shape and one map-order policy; regosym: one program = one profile of the families, whose emitted module is evaluated on a symbolic graph and every result object it can produce is checked for shape",
 		Harnesses: func(tier string) []HarnessSpec {
 			return []HarnessSpec{{Pkg: "internal/validator", Fn: "VerifC12Ids", Reach: []string{"ids-defined"}, Bounds: map[string]any{"depth": "1..3", "traces_per_result": "1..2", "sub_results_per_trace": "0..2", "locations": "none|all", "results": "1..2 violations, 0..1 warnings, 0..1 infos", "map_orders": "canonical | all reversed | all rotated"}},
-				{Pkg: "internal/validator", Fn: "VerifC12ManyResults", Native: "VerifC12ManyResults", Reach: []string{"ids-defined"}, Bounds: map[string]any{"results_per_level": "(12, 9, 0) | (9, 0, 17) | (33, 1, 10) with traces and sub-results: two-digit ordinals"}}}
+				{Pkg: "internal/validator", Fn: "VerifC12ManyResults", Native: "VerifC12ManyResults", Reach: []string{"ids-defined"}, Bounds: map[string]any{"results_per_level": "(12, 9, 0) | (9, 0, 17) | (33, 1, 10) with traces and sub-results: two-digit ordinals"}},
+				{Pkg: "internal/validator", Fn: "VerifC12EmptyOperands", Reach: []string{"accepted"}, Bounds: map[string]any{"bodies": "or: [] | not: {and: []} | and: [] | not: {or: []}", "levels": 3}},
+				{Pkg: "internal/validator", Fn: "VerifC12Messages", Reach: []string{"parsed"}, Bounds: map[string]any{"message_key": "absent | 11 spellings (empty in 5 ways, null in 3, blank, text, number, boolean)", "bodies": 3, "levels": 3}}}
 		},
 		Assumptions: []string{
 			"result trees are built from the three constructors the Rego preamble has (result, trace, location); the same shape parameters are used at every level of a tree (bound)",
